@@ -82,7 +82,7 @@ Proof.
   destruct (mid_compress vrd lim start start start srcSize cap (fun _ => None) (hc_h4 c) (hc_h8 c)) as [h4 h8 hw | ret consumed out h4 h8 hw | ].
   - cbn [RCap] in HC. destruct HC as (HC1 & HC2). cbn.
     split; [left; reflexivity|]. split; [exact HC1|]. split; [intros; congruence | lia].
-  - cbn [RSpec] in HS. cbn [RCap] in HC. destruct HS as (S1 & S2 & S3 & S4 & S5 & S6 & S7). destruct HC as (C1 & C2).
+  - cbn [RSpec] in HS. cbn [RCap] in HC. destruct HS as (S1 & S2 & S3 & S4 & S5 & S6 & S7 & SB). destruct HC as (C1 & C2).
     unfold mi_iend in *.
     assert (Ok1 : hc_ok {| hc_h4 := h4; hc_h8 := h8; hc_endIdx := start + srcSize; hc_dirty := if ret <=? 0 then true else hc_dirty c |}).
     { right. cbn. split; [lia|]. split; eapply tab_lt_mono; eauto; lia. }
